@@ -71,11 +71,12 @@ def judge(cfg, obs):
     return bad
 
 
-def _work(item):
-    c, bounds, inline, max_execs = item
+def _work(unit):
+    (c, bounds, inline, max_execs), shard = unit
     cfg = to_scenario(c, inline)
-    st = PC.explore_config(cfg, bounds, judge, max_execs=max_execs)
+    st = PC.explore_config(cfg, bounds, judge, max_execs=max_execs, shard=shard)
     res = st.result()
+    res["shard_nonzero"] = bool(shard and shard[0])
     res["sample"] = {"config": c, "inline": inline, "bounds(pb,eb,ob,joint)": list(bounds), "executions": st.execs,
                      "max_decision_points": st.max_decisions, "distinct_outcomes": len(st.outcomes)}
     return res
@@ -123,7 +124,7 @@ def plan(ctx):
                       (0, 0, 0, 0), False, 10))
     # costly items first for load balance
     items.sort(key=lambda it: -(it[0]["n"] * (3 if it[1][0] > 1 else 1)))
-    return items
+    return PC.shard_items(items, lambda it: it[0]["n"] * it[1][0] ** 2, 12 if quick else 4)
 
 
 def run(ctx):
